@@ -643,6 +643,9 @@ func C08(c *core.Ctx) {
 	// the chip-side command record of every completed read against the command language of Wire.tla
 	// (beyond the listed clauses of C08: a divergence is reported as a NOTE and counted, not a verdict)
 	wireValidate(c, wires)
+	// "any per-read size the chip tolerates", along a SESSION: every file is read whatever files came before it
+	// on the same NfcSession (ReadSession.tla: the working Le is session state, nothing else is)
+	readSessionReplay(c, "C08")
 	if len(jobs) > 0 {
 		c.Sample(map[string]any{"config": cfgs[jobs[0].i].String(), "options": opts[jobs[0].i].String(), "expected": exps[jobs[0].i]})
 		c.Sample(map[string]any{"config": cfgs[jobs[len(jobs)-1].i].String(), "options": opts[jobs[len(jobs)-1].i].String(), "expected": exps[jobs[len(jobs)-1].i]})
